@@ -353,6 +353,22 @@ CASES["regress/KF-C14-1.json"] = {"property": "C14", "signature": "differs", "ca
     "pool": [{"query": "mutation { counter }"}, {"query": "query { counter }"}],
     "history": [{"kind": "request", "ops": [0]}, {"kind": "request", "ops": [1]}, {"kind": "request", "ops": [0]}]}}
 
+def teardown_case(sig, steps, constraints=None, nsubs=1, real_ws=False, barriers=None):
+    st = [{"actor": "client", "kind": "init", "sub": 0, "wait": True}]
+    for a, k, sub, wait in steps:
+        st.append({"actor": a, "kind": k, "sub": sub, "wait": wait})
+    return {"property": "C18", "signature": sig, "case": {"nsubs": nsubs, "steps": st, "constraints": constraints or [], "barriers": barriers or [], "real_ws": real_ws}}
+
+CASES["regress/KF-C18-1.json"] = teardown_case("process-death", [("client", "start", 0, True), ("client", "stop", 0, False), ("upstream", "complete", 0, True)],
+    [["se.Close.afterRead", "se.Listen.beforeLock"], ["se.Listen.closed", "se.Close.beforeSend"]])
+CASES["regress/KF-C18-2.json"] = teardown_case("process-death", [("client", "start", 0, True), ("upstream", "event", 0, False), ("client", "stop", 0, True)],
+    [["se.Listen.closed", "qs.reader.beforeSendData"]], real_ws=True)
+CASES["regress/KF-C18-3.json"] = teardown_case("panic", [("client", "startNoPayload", 0, True)])
+CASES["regress/KF-C18-4.json"] = teardown_case("upstream-open", [("client", "start", 0, True), ("client", "disconnect", 0, True)])
+CASES["regress/KF-C18-5.json"] = teardown_case("frame", [("client", "start", 0, True), ("client", "start", 1, True), ("upstream", "event", 0, False), ("upstream", "event", 1, True),
+    ("upstream", "event", 0, False), ("upstream", "event", 1, True), ("upstream", "event", 1, False), ("upstream", "event", 0, True)], nsubs=2, barriers=["se.Listen.beforeWrite"])
+CASES["regress/KF-C18-5.json"]["case"]["header_pause_us"] = 400
+
 if __name__ == "__main__":
     import sys
     sys.path.insert(0, os.path.dirname(os.path.abspath(__file__)))
